@@ -381,12 +381,15 @@ theorem codeIdNew_upper_mem (s : Str) : ∀ c ∈ (codeIdNew s).map Char.toUpper
 
 /-- a string of hex digits has no separator and is not `..` -/
 theorem hex_component_ok {w : Str} (h : ∀ c ∈ w, c ∈ hexChars) :
-    (∀ c ∈ w, isSep c = false) ∧ w ≠ dotdot := by
+    (∀ c ∈ w, isSep c = false) ∧ w ≠ dotdot ∧ w ≠ ['.'] := by
   have k : ∀ c ∈ hexChars, isSep c = false ∧ c ≠ '.' := by decide
-  refine ⟨fun c hc => (k c (h c hc)).1, ?_⟩
-  intro e
-  subst e
-  exact (k '.' (h '.' (by simp [dotdot]))).2 rfl
+  refine ⟨fun c hc => (k c (h c hc)).1, ?_, ?_⟩
+  · intro e
+    subst e
+    exact (k '.' (h '.' (by simp [dotdot]))).2 rfl
+  · intro e
+    subst e
+    exact (k '.' (h '.' (by simp))).2 rfl
 
 /-! ### `rootedb` decides `Rooted` -/
 
@@ -415,19 +418,19 @@ theorem rootedb_iff (p : Str) : rootedb p = true ↔ Rooted p := by
 /-- `p = leaf/id/file` with a safe leaf and separator-free, non-`..` other components -/
 def Three (p : Str) : Prop :=
   ∃ leaf id file, p = joinWith slash [leaf, id, file] ∧ SafeLeaf leaf ∧
-    (∀ c ∈ id, isSep c = false) ∧ id ≠ dotdot ∧
-    (∀ c ∈ file, isSep c = false) ∧ file ≠ [] ∧ file ≠ dotdot
+    (∀ c ∈ id, isSep c = false) ∧ id ≠ dotdot ∧ id ≠ ['.'] ∧
+    (∀ c ∈ file, isSep c = false) ∧ file ≠ [] ∧ file ≠ dotdot ∧ file ≠ ['.']
 
 theorem Three.rooted {p : Str} (h : Three p) : Rooted p := by
-  obtain ⟨leaf, id, file, rfl, hl, hi, hi2, hf, _, hf2⟩ := h
+  obtain ⟨leaf, id, file, rfl, hl, hi, hi2, _, hf, _, hf2, _⟩ := h
   exact rooted_three hl hi hi2 hf hf2
 
 theorem Three.ne_nil {p : Str} (h : Three p) : p ≠ [] := h.rooted.nonempty
 
 /-- `moz_lookup`'s edit (drop the last character, append `_`) keeps the shape -/
 theorem Three.moz {p : Str} (h : Three p) : Three (p.dropLast ++ ['_']) := by
-  obtain ⟨leaf, id, file, rfl, hl, hi, hi2, hf, hfne, _⟩ := h
-  refine ⟨leaf, id, file.dropLast ++ ['_'], ?_, hl, hi, hi2, ?_, by simp, ?_⟩
+  obtain ⟨leaf, id, file, rfl, hl, hi, hi2, hi3, hf, hfne, _, _⟩ := h
+  refine ⟨leaf, id, file.dropLast ++ ['_'], ?_, hl, hi, hi2, hi3, ?_, by simp, ?_, ?_⟩
   · rw [joinWith3, joinWith3]
     have : leaf ++ slash ++ (id ++ slash ++ file) = (leaf ++ slash ++ (id ++ slash)) ++ file := by
       simp [List.append_assoc]
@@ -440,17 +443,86 @@ theorem Three.moz {p : Str} (h : Three p) : Three (p.dropLast ++ ['_']) := by
   · intro h
     have h2 := congrArg List.getLast? h
     simp [dotdot] at h2
+  · intro h
+    have h2 := congrArg List.getLast? h
+    simp at h2
 
 theorem SafeLeaf.three_leaf {leaf last id : Str} (hl : SafeLeaf leaf) (hl2 : SafeLeaf last)
     (hid : ∀ c ∈ id, c ∈ hexChars) : Three (joinWith slash [leaf, id, last]) :=
-  ⟨leaf, id, last, rfl, hl, (hex_component_ok hid).1, (hex_component_ok hid).2, hl2.nosep,
-    hl2.nonempty, hl2.not_dotdot⟩
+  ⟨leaf, id, last, rfl, hl, (hex_component_ok hid).1, (hex_component_ok hid).2.1,
+    (hex_component_ok hid).2.2, hl2.nosep,
+    hl2.nonempty, hl2.not_dotdot, hl2.not_dot⟩
 
 theorem SafeLeaf.three_ext {leaf id m : Str} (hl : SafeLeaf leaf) (hid : ∀ c ∈ id, c ∈ hexChars) :
     Three (joinWith slash [leaf, id, replaceOrAddExtension leaf m sym]) := by
   have h := replaceOrAddExtension_sym_ok (m := m) hl.nosep
-  refine ⟨leaf, id, _, rfl, hl, (hex_component_ok hid).1, (hex_component_ok hid).2, h.1, ?_, h.2⟩
   obtain ⟨stem, he, _⟩ := replaceOrAddExtension_shape leaf m sym
-  rw [he]; simp
+  refine ⟨leaf, id, _, rfl, hl, (hex_component_ok hid).1, (hex_component_ok hid).2.1,
+    (hex_component_ok hid).2.2, h.1, ?_, h.2, ?_⟩
+  · rw [he]; simp
+  · rw [he]; intro e
+    have := congrArg List.length e
+    simp [sym] at this
+
+/-! ### `join_lookup_path`: percent-encoding -/
+
+theorem pctEncodeByte_facts : ∀ n : Fin 256,
+    (∀ c ∈ pctEncodeByte (UInt8.ofNat n.val), c ∈ urlSegChars) ∧
+    (keepRaw (UInt8.ofNat n.val) = true →
+      Char.ofNat n.val ≠ '%' ∧ UInt8.ofNat (Char.ofNat n.val).toNat = UInt8.ofNat n.val) ∧
+    Proto.hexDigitVal (hexU (n.val / 16)) = some (n.val / 16) ∧
+    Proto.hexDigitVal (hexU (n.val % 16)) = some (n.val % 16) := by
+  decide +kernel
+
+theorem UInt8.ofNat_toNat' (b : UInt8) : UInt8.ofNat b.toNat = b := by simp
+
+theorem pctEncodeByte_chars (b : UInt8) : ∀ c ∈ pctEncodeByte b, c ∈ urlSegChars := by
+  have := (pctEncodeByte_facts ⟨b.toNat, b.toNat_lt⟩).1
+  simpa using this
+
+/-- every character of an encoded component is an ASCII letter, digit, one of
+    `- . _ ~ ! $ & ' ( ) * + , ; = : @`, or `%` -/
+theorem pctEncode_chars (w : Str) : ∀ c ∈ pctEncode w, c ∈ urlSegChars := by
+  intro c hc
+  obtain ⟨b, _, hb⟩ := List.mem_flatMap.mp hc
+  exact pctEncodeByte_chars b c hb
+
+theorem pctDecode_cons_ne (c : Char) (rest : Str) (h : c ≠ '%') :
+    pctDecode (c :: rest) = UInt8.ofNat c.toNat :: pctDecode rest := by
+  conv => lhs; unfold pctDecode
+  simp [h]
+
+theorem pctDecode_pct (a b : Char) (rest : Str) (x y : Nat) (ha : Proto.hexDigitVal a = some x)
+    (hb : Proto.hexDigitVal b = some y) :
+    pctDecode ('%' :: a :: b :: rest) = UInt8.ofNat (x * 16 + y) :: pctDecode rest := by
+  conv => lhs; unfold pctDecode
+  simp [ha, hb]
+
+theorem pctDecode_encodeByte (b : UInt8) (rest : Str) :
+    pctDecode (pctEncodeByte b ++ rest) = b :: pctDecode rest := by
+  have hf := pctEncodeByte_facts ⟨b.toNat, b.toNat_lt⟩
+  simp only [UInt8.ofNat_toNat'] at hf
+  obtain ⟨_, hk, hhi, hlo⟩ := hf
+  unfold pctEncodeByte
+  cases hkb : keepRaw b with
+  | true =>
+    obtain ⟨h1, h2⟩ := hk hkb
+    simp only [if_true, List.cons_append, List.nil_append]
+    rw [pctDecode_cons_ne _ _ h1, h2]
+  | false =>
+    simp only [Bool.false_eq_true, if_false, List.cons_append, List.nil_append]
+    rw [pctDecode_pct _ _ _ _ _ hhi hlo]
+    have : b.toNat / 16 * 16 + b.toNat % 16 = b.toNat := by omega
+    rw [this]; simp
+
+/-- decoding an encoded byte string gives the bytes back -/
+theorem pctDecode_flatMap (bs : List UInt8) : pctDecode (bs.flatMap pctEncodeByte) = bs := by
+  induction bs with
+  | nil => simp [pctDecode]
+  | cons b bs ih => rw [List.flatMap_cons, pctDecode_encodeByte, ih]
+
+/-- **round trip**: the percent-decoded segment is the UTF-8 of the component -/
+theorem pctDecode_pctEncode (w : Str) : pctDecode (pctEncode w) = utf8 w :=
+  pctDecode_flatMap _
 
 end MdModel.Paths
